@@ -434,6 +434,18 @@ let dispatch (cmd : string) (args : sx list) : sx =
   | "run", _ -> cmd_run args
   | "compile", _ -> cmd_compile args
   | "tojson", [a] -> L [Atom "S"; Str (string_of_bytes (to_json (val_of_sx a)))]
+  | "write", [indent; Atom sort; Atom sep; a] ->
+      (* [write INDENT|none SORT SEPSPACE v]: the writer with the given pretty-printer options *)
+      let ind = (match indent with Str i -> Some (bytes_of_string i) | _ -> None) in
+      let p = { pp_indent = ind; pp_sort_keys = (sort = "true"); pp_sep_space = (sep = "true") } in
+      L [Atom "S"; Str (string_of_bytes (write_val p O (val_of_sx a)))]
+  | "parse", [Str text] ->
+      let (vs, e) = parse_many (nat_of_int (String.length text + 1)) (bytes_of_string text) in
+      L [Atom "out"; L (List.map sx_of_val vs); (match e with None -> Atom "end" | Some _ -> L [Atom "errc"; Atom "parse"])]
+  | "parse1", [Str text] ->
+      (match parse_single (bytes_of_string text) with
+       | POk (v, _) -> L [Atom "out"; L [sx_of_val v]; Atom "end"]
+       | PErr _ -> L [Atom "out"; L []; L [Atom "errc"; Atom "parse"]])
   | _ -> L [Atom "model-error"; Str ("unknown command " ^ cmd)]
 
 let () =
